@@ -493,3 +493,232 @@ Proof.
     + intros _. split; [exact Happ|reflexivity].
     + rewrite app_length. cbn [length]. lia.
 Qed.
+
+(** * Taking an entry out of the in-flight ring (cache_insert, cache_discard) *)
+Lemma rl_infl_remove r P GP U GQ Q F e n :
+  Rl r P GP U GQ Q F -> In e F -> ninflight r = S n ->
+  let r2 := rset_ninflight n r in
+  let r3 := if inflight r2 =? e then rset_inflight (nx r2 e) r2 else r2 in
+  Rl (r_remove r3 e) P GP U GQ Q (rm e F) /\ ~ In e (ring5 P GP U GQ Q ++ rm e F).
+Proof.
+  intros HR Hin Hn. cbn zeta.
+  destruct HR as [Hring Hne Hsplit Hnd Hnp Hngp Hnq Hngq Hinfl Hnin].
+  set (L := ring5 P GP U GQ Q) in *.
+  assert (HndF : NoDup F).
+  { apply (NoDup_count_occ Nat.eq_dec). intros x. fold (cnt F x).
+    pose proof (nodup_cnt _ x Hnd) as Hc. rewrite cnt_app in Hc. lia. }
+  destruct (in_split _ _ Hin) as (f1 & f2 & EF).
+  assert (Hrm : rm e F = f1 ++ f2) by (rewrite EF; apply rm_split; rewrite <- EF; exact HndF).
+  assert (HeL : ~ In e L) by (eapply disjoint_ring_infl; eassumption).
+  assert (HFL : forall x, In x F -> ~ In x L) by (intros x Hx; eapply disjoint_ring_infl; eassumption).
+  assert (Hni : ~ In e (L ++ rm e F)).
+  { intros Hi. apply in_app_or in Hi. destruct Hi as [Hi|Hi]; [contradiction|].
+    rewrite Hrm in Hi. rewrite EF in HndF. exact (NoDup_remove_2 _ _ _ HndF Hi). }
+  split; [|exact Hni].
+  destruct Hinfl as [HlF HhF]; [intros E; rewrite E in Hin; contradiction|].
+  assert (Hcl : In (nx r e) F /\ In (pv r e) F) by (apply (linked_closed _ _ _ e HlF Hin)).
+  (* pointer members of the state after the removal *)
+  set (r3 := if inflight (rset_ninflight n r) =? e
+             then rset_inflight (nx (rset_ninflight n r) e) (rset_ninflight n r)
+             else rset_ninflight n r).
+  assert (E3 : nx r3 = nx r /\ pv r3 = pv r /\ split r3 = split r /\ nprec r3 = nprec r /\
+               ngprec r3 = ngprec r /\ nprobe r3 = nprobe r /\ ngprobe r3 = ngprobe r /\
+               ninflight r3 = n /\ inflight r3 = (if inflight r =? e then nx r e else inflight r)).
+  { unfold r3. rsimp. destruct (inflight r =? e); rsimp; repeat split; reflexivity. }
+  destruct E3 as (E1 & E2 & E3 & E4 & E5 & E6 & E7 & E8 & E9). clearbody r3.
+  assert (Hfr : forall x, In x L ->
+            fst (remove_entry (nx r) (pv r) e) x = nx r x /\
+            snd (remove_entry (nx r) (pv r) e) x = pv r x).
+  { intros x Hx. destruct (remove_frame (nx r) (pv r) e x) as [G1 G2].
+    split; [apply G1|apply G2]; intros ->; [apply (HFL (pv r e))|apply (HFL (nx r e))]; tauto. }
+  constructor; rsimp; rewrite ?E1, ?E2, ?E3, ?E4, ?E5, ?E6, ?E7, ?E8; try assumption.
+  - apply (linked_ext (nx r) (pv r)); [exact Hring| |]; intros x Hx; apply Hfr; exact Hx.
+  - apply (NoDup_count_occ Nat.eq_dec). intros x. fold L. fold (cnt (L ++ rm e F) x).
+    pose proof (nodup_cnt _ x Hnd) as Hc. rewrite cnt_app in *.
+    cs x e; crw; lia.
+  - intros HF'. rewrite Hrm in *. rewrite EF in HlF.
+    split; [apply remove_entry_linked; assumption|].
+    rewrite E9. rewrite <- HhF, EF.
+    destruct f1 as [|a f1]; cbn [app hd].
+    + rewrite Nat.eqb_refl. rewrite (linked_succ _ _ [] e f2 HlF). rewrite app_nil_r.
+      destruct f2; [contradiction|reflexivity].
+    + destruct (Nat.eqb_spec a e) as [->|Hae]; [|reflexivity].
+      exfalso. rewrite EF in HndF. apply NoDup_remove_2 in HndF. apply HndF. left. reflexivity.
+  - rewrite Hrm. rewrite Hnin, EF, app_length in Hn. cbn [length] in Hn. rewrite app_length. lia.
+Qed.
+
+(* add_entry_after leaves everything outside the ring and the new entry alone *)
+Lemma add_after_outside nx pv L e ins x :
+  linked nx pv L -> In ins L -> ~ In x L -> x <> e ->
+  fst (add_entry_after nx pv e ins) x = nx x /\ snd (add_entry_after nx pv e ins) x = pv x.
+Proof.
+  intros Hl Hi Hx Hxe. destruct (add_after_frame nx pv e ins x) as [G1 G2].
+  destruct (linked_closed _ _ _ ins Hl Hi) as [Hn _].
+  split; [apply G1|apply G2]; try assumption; intros ->; contradiction.
+Qed.
+
+(** * Putting an entry (in no ring) into the main ring *)
+Section Attach.
+  Variables (r : rst) (P GP U GQ Q F : list nat) (e : nat).
+  Hypothesis HR : Rl r P GP U GQ Q F.
+  Hypothesis He : ~ In e (ring5 P GP U GQ Q ++ F).
+
+  Let L := ring5 P GP U GQ Q.
+
+  Lemma attach_frame ins x : In ins L -> In x F ->
+    fst (add_entry_after (nx r) (pv r) e ins) x = nx r x /\
+    snd (add_entry_after (nx r) (pv r) e ins) x = pv r x.
+  Proof.
+    intros Hi Hx. apply (add_after_outside _ _ L); try assumption.
+    - exact (L_ring _ _ _ _ _ _ _ HR).
+    - eapply disjoint_ring_infl; [exact (L_nd _ _ _ _ _ _ _ HR)|exact Hx].
+    - intros ->. apply He. apply in_or_app. right. exact Hx.
+  Qed.
+
+  Lemma attach_infl ins : In ins L -> F <> [] ->
+    linked (fst (add_entry_after (nx r) (pv r) e ins)) (snd (add_entry_after (nx r) (pv r) e ins)) F /\
+    hd 0 F = inflight r.
+  Proof.
+    intros Hi HF. destruct (L_infl _ _ _ _ _ _ _ HR HF) as [Hl Hh]. split; [|exact Hh].
+    apply (linked_ext (nx r) (pv r)); [exact Hl| |]; intros x Hx; apply attach_frame; assumption.
+  Qed.
+
+  Lemma attach_nodup L' : (forall x, cnt L' x = cnt L x + cnt [e] x) -> NoDup (L' ++ F).
+  Proof.
+    intros Hc. apply (NoDup_count_occ Nat.eq_dec). intros x. fold (cnt (L' ++ F) x).
+    pose proof (nodup_cnt _ x (L_nd _ _ _ _ _ _ _ HR)) as H1. fold L in H1.
+    rewrite cnt_app in *. rewrite Hc.
+    assert (cnt L e + cnt F e = 0).
+    { apply cnt_notin in He. fold L in He. rewrite cnt_app in He. exact He. }
+    cs x e; crw; lia.
+  Qed.
+
+  Lemma split_in : In (split r) L.
+  Proof. rewrite <- (L_split _ _ _ _ _ _ _ HR). apply last_in_ne. exact (L_ne _ _ _ _ _ _ _ HR). Qed.
+
+  (* after the split element: the new entry is the last one in next order
+     from ce[split].next, i.e. the first one when split does not move *)
+  Lemma attach_after_split :
+    linked (fst (add_entry_after (nx r) (pv r) e (split r)))
+           (snd (add_entry_after (nx r) (pv r) e (split r))) (L ++ [e]).
+  Proof.
+    destruct (exists_last (L_ne _ _ _ _ _ _ _ HR)) as (m & sp & E). fold L in E.
+    assert (Hsp : sp = split r).
+    { rewrite <- (L_split _ _ _ _ _ _ _ HR). fold L. rewrite E, last_last. reflexivity. }
+    subst sp. rewrite E. rewrite <- app_assoc. cbn [app].
+    apply add_entry_after_linked.
+    - rewrite <- E. exact (L_ring _ _ _ _ _ _ _ HR).
+    - rewrite <- E. intros Hi. apply He. apply in_or_app. left. exact Hi.
+  Qed.
+
+  (* cache_insert, target precious *)
+  Lemma rl_insert_prec :
+    let r' := r_add_after r e (split r) in
+    Rl (rset_nprec (S (nprec r')) r') (e :: P) GP U GQ Q F.
+  Proof.
+    cbn zeta. pose proof attach_after_split as Hl. apply linked_rot in Hl.
+    constructor; rsimp; try (apply HR).
+    - exact Hl.
+    - discriminate.
+    - change (ring5 (e :: P) GP U GQ Q) with (e :: L). rewrite last_cons.
+      rewrite <- (L_split _ _ _ _ _ _ _ HR). fold L. apply last_default. exact (L_ne _ _ _ _ _ _ _ HR).
+    - apply (attach_nodup (e :: L)). intros x. rewrite !cnt_cons, cnt_nil. lia.
+    - cbn [length]. rewrite (L_np _ _ _ _ _ _ _ HR). reflexivity.
+    - apply attach_infl. exact split_in.
+  Qed.
+
+  (* cache_insert, target probe: the new entry becomes split *)
+  Lemma rl_insert_probe :
+    let r' := r_add_after r e (split r) in
+    Rl (rset_split e (rset_nprobe (S (nprobe r')) r')) P GP U GQ (e :: Q) F.
+  Proof.
+    cbn zeta. pose proof attach_after_split as Hl.
+    assert (E : ring5 P GP U GQ (e :: Q) = L ++ [e]).
+    { unfold L, ring5. cbn [rev]. rewrite <- !app_assoc. reflexivity. }
+    constructor; rsimp; try (apply HR).
+    - rewrite E. exact Hl.
+    - rewrite E. destruct L; discriminate.
+    - rewrite E. apply last_last.
+    - apply (attach_nodup (ring5 P GP U GQ (e :: Q))). intros x. rewrite E, cnt_app. reflexivity.
+    - cbn [length]. rewrite (L_nq _ _ _ _ _ _ _ HR). reflexivity.
+    - apply attach_infl. exact split_in.
+  Qed.
+End Attach.
+
+Section Discard.
+  Variables (r : rst) (P GP U GQ Q F : list nat) (e : nat).
+  Hypothesis HR : Rl r P GP U GQ Q F.
+  Hypothesis He : ~ In e (ring5 P GP U GQ Q ++ F).
+
+  Let L := ring5 P GP U GQ Q.
+  Let D := P ++ GP ++ U.
+  Let w := rev GQ ++ rev Q.
+
+  (* cache_discard: back into the unused partition, next to the ghost-probe side *)
+  Lemma rl_discard_tail :
+    let cnt := nprobe r + ngprobe r in
+    let eprobe := chase (pv r) cnt (split r) in
+    let r5 := if cnt =? 0 then rset_split e r else r in
+    Rl (r_add_after r5 e eprobe) P GP (U ++ [e]) GQ Q F.
+  Proof.
+    cbn zeta.
+    assert (EL : L = D ++ w) by (unfold L, D, w, ring5; rewrite <- !app_assoc; reflexivity).
+    assert (Hcnt : nprobe r + ngprobe r = length w).
+    { unfold w. rewrite app_length, !rev_length, (L_nq _ _ _ _ _ _ _ HR), (L_ngq _ _ _ _ _ _ _ HR). lia. }
+    assert (Hch : chase (pv r) (length w) (split r) = last (w ++ D) 0).
+    { rewrite <- (L_split _ _ _ _ _ _ _ HR). fold L. rewrite EL.
+      apply (walk_chase_bwd (nx r) (pv r) w D 0).
+      - rewrite <- EL. exact (L_ring _ _ _ _ _ _ _ HR).
+      - rewrite <- EL. exact (L_ne _ _ _ _ _ _ _ HR). }
+    assert (EL' : ring5 P GP (U ++ [e]) GQ Q = D ++ e :: w).
+    { unfold D, w, ring5. rewrite <- !app_assoc. reflexivity. }
+    assert (Hnd' : NoDup (ring5 P GP (U ++ [e]) GQ Q ++ F)).
+    { apply (attach_nodup r P GP U GQ Q F e HR He). intros x.
+      rewrite !cnt_ring5, !cnt_app. lia. }
+    rewrite Hcnt, Hch.
+    destruct w as [|a w'] eqn:Ew.
+    - (* no probed and no ghost-probe entries: the entry becomes split *)
+      cbn [length Nat.eqb app]. rewrite app_nil_r in EL.
+      pose proof (attach_after_split r P GP U GQ Q F e HR He) as Hl. fold L in Hl.
+      assert (Hsp : last D 0 = split r) by (rewrite <- EL; exact (L_split _ _ _ _ _ _ _ HR)).
+      rewrite Hsp.
+      constructor; rsimp; try (apply HR); try assumption.
+      + rewrite EL', <- EL. exact Hl.
+      + rewrite EL'. destruct D; discriminate.
+      + rewrite EL'. apply last_last.
+      + apply (attach_infl r P GP U GQ Q F e HR He). apply (split_in r P GP U GQ Q F HR).
+    - change (length (a :: w') =? 0) with false. cbn iota.
+      destruct D as [|d0 D0] eqn:ED.
+      + (* everything is probed or ghost-probe: after split, i.e. in front *)
+        rewrite app_nil_r. cbn [app] in EL.
+        assert (Hsp : last (a :: w') 0 = split r) by (rewrite <- EL; exact (L_split _ _ _ _ _ _ _ HR)).
+        rewrite Hsp.
+        pose proof (attach_after_split r P GP U GQ Q F e HR He) as Hl. fold L in Hl.
+        apply linked_rot in Hl.
+        constructor; rsimp; try (apply HR); try assumption.
+        * rewrite EL'. cbn [app]. rewrite <- EL. exact Hl.
+        * rewrite EL'. discriminate.
+        * rewrite EL'. cbn [app]. rewrite last_cons, <- Hsp. apply last_default. discriminate.
+        * apply (attach_infl r P GP U GQ Q F e HR He). apply (split_in r P GP U GQ Q F HR).
+      + (* after the last entry of the precious/ghost-precious/unused side *)
+        assert (HD : d0 :: D0 <> []) by discriminate.
+        rewrite (last_app_ne _ (d0 :: D0) 0 HD).
+        destruct (exists_last HD) as (D' & d & ED'). rewrite ED', last_last.
+        assert (Hl : linked (fst (add_entry_after (nx r) (pv r) e d))
+                            (snd (add_entry_after (nx r) (pv r) e d)) (D' ++ d :: e :: a :: w')).
+        { apply add_entry_after_linked.
+          - replace (D' ++ d :: a :: w') with L; [exact (L_ring _ _ _ _ _ _ _ HR)|].
+            rewrite EL, ED', <- app_assoc. reflexivity.
+          - intros Hi. apply He. apply in_or_app. left. fold L.
+            rewrite EL, ED', <- app_assoc. exact Hi. }
+        assert (Hd : In d L).
+        { rewrite EL, ED'. apply in_or_app. left. apply in_or_app. right. left. reflexivity. }
+        constructor; rsimp; try (apply HR); try assumption.
+        * rewrite EL', ED', <- app_assoc. exact Hl.
+        * rewrite EL'. discriminate.
+        * rewrite EL'. rewrite <- (L_split _ _ _ _ _ _ _ HR). fold L. rewrite EL.
+          change ((d0 :: D0) ++ e :: a :: w') with ((d0 :: D0) ++ [e] ++ (a :: w')).
+          rewrite app_assoc, !(last_app_ne _ (a :: w')) by discriminate. reflexivity.
+        * apply (attach_infl r P GP U GQ Q F e HR He). exact Hd.
+  Qed.
+End Discard.
